@@ -150,10 +150,10 @@ def store(fs, path, spec, table, rng=None, features=None, eol=None):
     """Store ``table`` at ``path`` in the CID's format through the independent peers."""
     fmt = spec["format"]
     if fmt == "delimited":
-        eol = eol or {"lf": "\n", "cr": "\r", "crlf": "\r\n", "any": "\n"}[spec.get("line_delimiter", "lf")]
+        eol = eol or {"lf": "\n", "cr": "\r", "crlf": "\r\n", "any": spec.get("eol", "\n")}[spec.get("line_delimiter", "lf")]
         data = lib.render_delimited(table, ",", '"', eol).encode(spec.get("encoding", "utf-8"))
     elif fmt == "fixed":
-        eol = eol or {"lf": "\n", "cr": "\r", "crlf": "\r\n", "any": "\n", "none": ""}[spec.get("line_delimiter", "lf")]
+        eol = eol or {"lf": "\n", "cr": "\r", "crlf": "\r\n", "any": spec.get("eol", "\n"), "none": ""}[spec.get("line_delimiter", "lf")]
         data = lib.render_fixed(table, widths(spec), eol).encode(spec.get("encoding", "utf-8"))
     elif fmt == "ods":
         sheets = [[["other", "sheet"]]] * (spec.get("sheet", 1) - 1) + [table]
